@@ -84,7 +84,7 @@ Lemma link_make a : option_map SmtString_s (M_SmtString_make a) =
   if Nat.ltb MAXLEN (length a) then None else Some a.
 Proof.
   unfold M_SmtString_make, SmtString_make, MAX_LENGTH, MAXLEN, bind.
-  destruct (Nat.ltb (Z.to_nat 2147483647) (length a)); reflexivity.
+  rewrite ?Nat.ltb_antisym. destruct (Nat.leb (length a) (Z.to_nat 2147483647)); reflexivity.
 Qed.
 
 Lemma link_new : M_fn_new_automaton = Some (unconvpa new_parsing_automaton).
